@@ -39,6 +39,7 @@ import (
 	"github.com/named-data/ndnd/fw/dispatch"
 	"github.com/named-data/ndnd/fw/face"
 	"github.com/named-data/ndnd/fw/fw"
+	"github.com/named-data/ndnd/fw/table"
 	enc "github.com/named-data/ndnd/std/encoding"
 	"github.com/named-data/ndnd/std/log"
 	"github.com/named-data/ndnd/std/ndn"
@@ -104,6 +105,9 @@ func lpSetup() {
 	lpInit = true
 	core.LoadConfig(core.DefaultConfig(), "/tmp")
 	log.SetLevel(log.FatalLevel)
+	// the forwarder's tables: a face that goes down is removed from the face table, which cleans up RIB and FIB
+	table.Configure()
+	table.CreateFIBTable("nametree")
 }
 
 // ------------------------------------------------------------------------------------------------ decode as seen by the harness
